@@ -131,6 +131,18 @@ def read_all(fmt, data, d, tag):
         return project(fmt, t)
     res["lazy-after-peek"] = outcome(peek_then_all)
 
+    def after_slice_write():
+        # a slice of the table is written to another file before any column of the table itself is parsed
+        t = bnp.open(path, **kw).read()
+        if len(t) < 2:
+            return None
+        w = bnp.open(path + ".part" + suffix, "w", **kw)
+        w.write(t[1:])
+        w.close()
+        os.remove(path + ".part" + suffix)
+        return project(fmt, t)
+    res["lazy-after-slice-write"] = outcome(after_slice_write)
+
     def chunks_sliced_concat():
         # every chunk without its first entry, joined again: the entries of the file minus those (first entries are put back as markers)
         chunks = list(bnp.open(path, **kw).read_chunks(min_chunk_size=max(len(data) // 3, 1)))
@@ -206,6 +218,41 @@ def read_vcf_typed(data, d, tag, INFO_KEYS=INFO_KEYS, only_info=False):
         res["info-" + ("lazy" if lazy else "eager")] = outcome(typed, lazy)
         res["info-" + ("lazy" if lazy else "eager") + "-reversed"] = outcome(typed, lazy, "reversed")
         res["info-" + ("lazy" if lazy else "eager") + "-after-peek"] = outcome(typed, lazy, "after-peek")
+    # three tables joined in one call: this file, the same records in the opposite line order (another file), and this file again
+    def concat3(lazy):
+        lines = data.split(b"\n")
+        nl_end = data.endswith(b"\n")
+        body = [l for l in lines if l and not l.startswith(b"#")]
+        head = [l for l in lines if l.startswith(b"#")]
+        path2 = path[:-4] + "_r.vcf"
+        with open(path2, "wb") as f:
+            f.write(b"\n".join(head + body[::-1]) + b"\n")
+        a, b, c = (bnp.open(p_, lazy=lazy).read() for p_ in (path, path2, path))
+        if not lazy:
+            for t_ in (a, b, c):
+                t_.info            # typed INFO of every operand already parsed
+        j = np.concatenate([a, b, c])
+        info = j.info
+        out = []
+        for i in range(len(j)):
+            row = []
+            for key, typ in INFO_KEYS:
+                x = getattr(info, key).tolist()[i]
+                if typ == "Integer":
+                    row.append(["int", int(x)])
+                elif typ == "Float":
+                    row.append(["nan"] if x != x else ["float", _cell("float", x)])
+                elif typ == "Flag":
+                    row.append(bool(x))
+                elif typ == "String":
+                    row.append(_bytes(x))
+                else:
+                    row.append([int(y) for y in x])
+            out.append({"base": None, "info": row})
+        os.remove(path2)
+        return out
+    for lazy in (True, False):
+        res["info-" + ("lazy" if lazy else "eager") + "-concat3"] = outcome(concat3, lazy)
     if only_info:
         os.remove(path)
         return res
@@ -249,9 +296,10 @@ def check_vcf_typed(v, alt=False):
         n += 1
         ok = o[0] == "ok"
         if ok and mode.startswith("info"):
-            ok = len(o[1]) == len(exp)
-            for g, e in zip(o[1] if ok else [], exp[::-1] if mode.endswith("-reversed") else exp):
-                if not _same("vcf", [e["base"][:7] + [[]]], [g["base"][:7] + [[]]]):      # the INFO text itself is compared through its typed keys
+            wantrows = exp[::-1] if mode.endswith("-reversed") else (exp + exp[::-1] + exp if mode.endswith("-concat3") else exp)
+            ok = len(o[1]) == len(wantrows)
+            for g, e in zip(o[1] if ok else [], wantrows):
+                if g["base"] is not None and not _same("vcf", [e["base"][:7] + [[]]], [g["base"][:7] + [[]]]):      # the INFO text itself is compared through its typed keys
                     ok = False
                 for (key, typ), ge, ee in zip(INFO_KEYS, g["info"], e["info"]):
                     if typ == "Integer":
@@ -282,6 +330,8 @@ def check_vector(v):
     nt = [json.dumps(v["text"])] if (len(exp) > 1 and widths) or v["crlf"] or not v["finalnl"] or v["header"] or v["ncomments"] else []
     for mode, o in res.items():
         want = exp[::-1] if mode.endswith("-reversed") else exp
+        if mode == "lazy-after-slice-write" and o == ("ok", None):
+            continue
         if mode == "chunks-sliced-concat":
             if o == ("ok", None):
                 continue
@@ -398,6 +448,8 @@ def record_trace(job):
     res = read_all(fmt, data, d, "B%d_%d" % (os.getpid(), tid))
     # rows of a reversed selection are sent to TLC in file order (TLC compares with Parse(text))
     csc = res.pop("chunks-sliced-concat")
+    if res.get("lazy-after-slice-write") == ("ok", None):
+        res.pop("lazy-after-slice-write")
     res = {m: (("ok", o[1][::-1]) if m.endswith("-reversed") and o[0] == "ok" else o) for m, o in res.items()}
     if csc != ("ok", None):
         # the entries dropped from each chunk are filled in from the lazy read (itself validated by TLC), so that TLC sees a whole file
